@@ -1872,8 +1872,14 @@ class Pipeline:
             output_nodes = {f for f in output_nodes if f in downstream}
         between = _find_nodes_between(pipeline.graph, inputs, output_nodes)
         drop = [f for f in pipeline.functions if f not in between]
-        for f in drop:
-            pipeline.drop(f=f)
+        if drop:
+            # Remove all of them before validating: a pipeline with only some of them removed need
+            # not be valid (e.g., two consumers of a removed producer with different defaults for
+            # its output, of which only one is kept)
+            for f in drop:
+                pipeline.functions.remove(f)
+            pipeline._clear_internal_cache()
+            pipeline._validate()
 
         if inputs is not None:
             new_root_args = set(pipeline.topological_generations.root_args)
